@@ -345,7 +345,41 @@ def writer_total(V):
              and buf.ndim == 1)]
 
 
-FUNCS = {"writer_total": writer_total, "purpose_total": purpose_total, "t_quant_scales": t_quant_scales, "main_config": main_config, "t_c16": t_c16, "snapshot_dtype": snapshot_dtype, "buffering_arith": buffering_arith, "t_resize": t_resize, "t_strides": t_strides, "t_broadcast": t_broadcast,
+def summary_total(V):
+    """the console summary with --show-cpu-operations copes with every operator the graph can hold: the REAL print_performance_metrics_for_strat with
+    CPU and NPU operator lists whose operators have optional inputs that are absent (None - a bias-less FULLY_CONNECTED, unused LSTM inputs;
+    symbolic choice per input): it prints and does not raise."""
+    import io
+    import numpy as np
+    import ethosu.vela.stats_writer as sw
+    from ethosu.vela.npu_performance import PassCycles
+    from ethosu.vela.tensor import MemArea, TensorPurpose, BandwidthDirection
+    from ethosu.vela.operation import Op
+    from harness.c04 import arch_for
+
+    arch = arch_for("Ethos_U55_128")
+    cycles = np.zeros(PassCycles.Size)
+    cycles[PassCycles.Total] = 1000.0
+    bws = np.zeros((MemArea.Size, TensorPurpose.Size, BandwidthDirection.Size))
+    bws[MemArea.Sram, TensorPurpose.FeatureMap, BandwidthDirection.Read] = 10.0
+    t = lambda: _O(shape=[1, 4])  # noqa: E731
+
+    def mkop(tag):
+        ins = [t() if not bool(V.bool("%s_input%d_absent" % (tag, i))) else None for i in range(3)]
+        return _O(type=Op.FullyConnected, name=tag, inputs=ins, outputs=[t()])
+
+    cpu, npu = [mkop("cpu_op")], [mkop("npu_op")]
+    buf = io.StringIO()
+    try:
+        sw.print_performance_metrics_for_strat(arch, "net", cycles, 12345.0, bws, 1, {MemArea.Sram: 1024}, cpu, npu, True, None, buf)
+    except Exception as e:  # noqa: BLE001
+        if isinstance(e, (core.PathAbort, core.Infeasible)):
+            raise
+        return [("the summary is printed without an internal %s" % type(e).__name__, False)]
+    return [("the summary is printed", "CPU operators" in buf.getvalue() and "cpu_op" in buf.getvalue())]
+
+
+FUNCS = {"summary_total": summary_total, "writer_total": writer_total, "purpose_total": purpose_total, "t_quant_scales": t_quant_scales, "main_config": main_config, "t_c16": t_c16, "snapshot_dtype": snapshot_dtype, "buffering_arith": buffering_arith, "t_resize": t_resize, "t_strides": t_strides, "t_broadcast": t_broadcast,
          "t_tconv": t_tconv, "main_errors": main_errors}
 
 
@@ -364,6 +398,7 @@ def instances(tier, seed):
         out.append(dict(key="constraints_total/tconv/%s" % p, fn="t_tconv", params=dict(padding=p)))
     out.append(dict(key="constraints_total/quant_scales", fn="t_quant_scales", params={}))
     out.append(dict(key="writer_total", fn="writer_total", params={}))
+    out.append(dict(key="summary_total", fn="summary_total", params={}))
     for n in (2, 3):
         out.append(dict(key="purpose_total/%d" % n, fn="purpose_total", params=dict(nops=n)))
     from harness import c16, c18
